@@ -80,6 +80,11 @@ class Monitor:
     def _run_case(self, di, cand, prev_w, path, r):
         B = self.B
         dt = B.build(di)
+        # member objects of foreign enums: the code under test gets the object, the model sees its integer code (a member
+        # object stands for its code: the result must be a member of the DECLARED enum, or the value is refused)
+        real, cand = materialise(cand), model_view(cand)
+        if real is not cand:
+            r.count('foreign_enum_member_candidates')
         case = {'spec': di, 'cand': rec.jsonable(cand), 'prev': prev_w, 'path': path}
         py = path != 'wire'
         limits = path != 'drv-call'
@@ -103,14 +108,14 @@ class Monitor:
         # ---- execute the code under test
         try:
             if path == 'wire':
-                res = dt.validate(dt.import_value(cand), previous=prev)
+                res = dt.validate(dt.import_value(real), previous=prev)
             elif path == 'drv-validate':
-                offered = cand
+                offered = real
                 if zlib.crc32(repr(cand).encode('utf-8', 'replace')) % 3 == 0:
                     # the usual driver flow: the value was first converted (datatype(value): conversion only, limits
                     # are not checked there) and the converted object is validated afterwards
                     try:
-                        offered = dt(cand)
+                        offered = dt(real)
                         r.count('drv_validate_after_conversion')
                         # the conversion may move the value (a scaled value is rounded to its grid): the verdict on the
                         # converted value is the one that counts; where the two differ nothing is demanded
@@ -122,10 +127,10 @@ class Monitor:
                         except Exception:
                             exp = 'either'
                     except Exception:
-                        offered = cand
+                        offered = real
                 res = dt.validate(offered, previous=prev)
             else:
-                res = dt(cand)
+                res = dt(real)
             got = 'ok'
         except self.Bad:
             got = 'bad'
@@ -200,6 +205,38 @@ class Monitor:
                 self.viol('not-idempotent', path, di, cand, lp, '', case)
         except Exception as ex:
             self.viol('not-idempotent', path, di, cand, lp, type(ex).__name__, case)
+
+
+def _has_marker(c):
+    if isinstance(c, dict):
+        return '__foreign_enum__' in c or any(_has_marker(v) for v in c.values())
+    if isinstance(c, (list, tuple)):
+        return any(_has_marker(v) for v in c)
+    return False
+
+
+def model_view(c):
+    if not _has_marker(c):
+        return c
+    if isinstance(c, dict):
+        if '__foreign_enum__' in c:
+            return c['__foreign_enum__'][0]
+        return {k: model_view(v) for k, v in c.items()}
+    return type(c)(model_view(v) for v in c)
+
+
+def materialise(c):
+    if not _has_marker(c):
+        return c
+    if isinstance(c, dict):
+        if '__foreign_enum__' in c:
+            from frappy.lib.enum import Enum
+            code, label = c['__foreign_enum__']
+            members = {label: code}
+            members.setdefault('pad', code + 1000)
+            return Enum('e', **members)[code]       # the generated enum types are all named 'e'
+        return {k: materialise(v) for k, v in c.items()}
+    return type(c)(materialise(v) for v in c)
 
 
 def unmerged_although_partner(di, val, prev):
